@@ -3,10 +3,11 @@
 (* Trace specification for C07.  Each line is one heightmap rendered by    *)
 (* the real voxel renderer together with the brute-force heightmap of the  *)
 (* unsimplified shape over the whole grid and one root tile beyond its     *)
-(* top.  For every column that is not negative just beyond the top of the  *)
-(* grid (outside the claim) and has no voxel within the rounding band at   *)
-(* or above its surface:                                                   *)
-(*   depth = 1 + index of the highest negative voxel (0 if none),          *)
+(* top.  For every column that has no voxel within the rounding band at or *)
+(* above its surface:                                                      *)
+(*   depth = 1 + index of the highest negative voxel (0 if none), clamped  *)
+(*   to the grid depth when that voxel lies above the grid, inside the     *)
+(*   overhang of the last root tile,                                       *)
 (* and for a surface column the reported normal is the gradient of the     *)
 (* shape at that voxel (same backend's gradient evaluator on the           *)
 (* unsimplified shape; bit for bit, NaN~NaN, zero sign free).              *)
@@ -19,7 +20,9 @@ vars == <<l>>
 
 Judged(r, k) == ~r.excluded[k] /\ ~r.ambiguous[k]
 DepthOk(r, k) == ~Judged(r, k) \/ r.depth[k] = r.ref_depth[k]
-NormalOk(r, k) == ~Judged(r, k) \/ r.ref_depth[k] = 0 \/ r.depth[k] # r.ref_depth[k]
+\* a column whose hit lies above the grid (between the grid depth and the top of its last root tile) reports the grid
+\* depth (ref_depth = d, the clamp); what normal it carries is not stated by the property
+NormalOk(r, k) == ~Judged(r, k) \/ r.ref_depth[k] = 0 \/ r.depth[k] # r.ref_depth[k] \/ r.clamped[k]
                   \/ \A c \in 1..3 : SameZ(r.normal[k][c], r.ref_normal[k][c])
 
 (* heightmaps of the voxel sets emitted by the Render3D.tla generator: the expected depth of every column is     *)
